@@ -214,6 +214,7 @@ def pmap(fn, cases, nproc=None, case_timeout=120, on_result=None):
     tmpd = tempfile.mkdtemp(prefix='vfpool', dir=vbuild.BUILD)
     shares = [list(range(k, n, nproc)) for k in range(nproc)]
     workers = {}   # rfd -> dict
+    hung = [0]; durs = []
     def spawn(k, idxs):
         if not idxs:
             return
@@ -269,16 +270,23 @@ def pmap(fn, cases, nproc=None, case_timeout=120, on_result=None):
             while len(w['buf']) >= 12:
                 i, ln = struct.unpack('<qI', w['buf'][:12])
                 if ln == 0:
-                    w['cur'] = i; w['buf'] = w['buf'][12:]; w['cpu0'] = _tree_cpu(w['pid'])[0]; continue
+                    w['cur'] = i; w['buf'] = w['buf'][12:]; w['cpu0'] = _tree_cpu(w['pid'])[0]; w['t0'] = now; continue
                 if len(w['buf']) < 12 + ln:
                     break
                 results[i] = pickle.loads(w['buf'][12:12 + ln])
+                durs.append(now - w.get('t0', now))
                 if on_result: on_result(i, results[i])
                 w['buf'] = w['buf'][12 + ln:]
                 w['done'] += 1; w['cur'] = None
         for r in list(workers):
             w = workers[r]
-            if now - w['t'] <= case_timeout:
+            # after the first case of this map has been declared hung under the full limit, later cases are given 50 times the 95th
+            # percentile of the completed ones (at least 30 s): a change that makes a whole class of cases loop must not cost the full limit
+            # per case.  On a tree without hangs this never engages.
+            lim = case_timeout
+            if hung[0] and len(durs) >= 20:
+                lim = min(case_timeout, max(30.0, 50 * sorted(durs)[int(0.95 * (len(durs) - 1))]))
+            if now - w['t'] <= lim:
                 w.pop('probe', None); continue
             # past the wall-clock limit.  "Does not return" must not depend on how busy the machine is: a case is a hang when its
             # process tree has BURNT at least half the limit in CPU time (busy loop), or has made no CPU progress for 10 s with nothing
@@ -286,12 +294,14 @@ def pmap(fn, cases, nproc=None, case_timeout=120, on_result=None):
             cpu, runnable = _tree_cpu(w['pid'])
             used = cpu - w.get('cpu0', 0.0)
             pr = w.get('probe')
-            if used >= 0.5 * case_timeout or now - w['t'] > 8 * case_timeout:
+            if used >= 0.5 * lim or now - w['t'] > 8 * lim:
+                hung[0] += 1
                 finish_worker(r, 'timeout')
             elif pr is None:
                 w['probe'] = (now, cpu)
             elif now - pr[0] >= 10:
                 if cpu - pr[1] < 0.05 and not runnable:
+                    hung[0] += 1
                     finish_worker(r, 'timeout')
                 else:
                     w['probe'] = (now, cpu)
